@@ -1,5 +1,6 @@
 import Setec.Proofs.DB
 import Setec.Spec.DBMon
+import Setec.Proofs.Wire
 /-!
 # C09 - conditional get reports not-modified exactly when nothing changed
 
@@ -84,5 +85,12 @@ example : Inv { secrets := (∅ : SMap).insert "a" (newSecret [1]), gen := 1, di
   by_cases hn : "a" = n
   · subst hn; simp at h; subst h; exact secInv_new [1]
   · simp [ExtTreeMap.getElem?_insert, hn] at h
+
+/-- the conditional-get arguments survive the wire: the request body the client sends
+(`Wire.renderGetReq`, tied byte for byte to the real client by the `http` family) reads back
+as the same name, version and UpdateIfChanged flag -/
+theorem wire_get_request_roundtrip (name : String) (version : Nat) (uic : Bool) :
+    Wire.readGetReq (Wire.renderGetReq name version uic) = some (name, version, uic) :=
+  Wire.readGetReq_render name version uic
 
 end Setec.C09
